@@ -102,14 +102,12 @@ func c04r9(c *core.Ctx) {
 	check = func(f *core.Func, at *ast.CallExpr, X, id ast.Expr, via string, depth int) {
 		call := at
 		subject := fmt.Sprintf("%s: %s%s", f.Name, m.ExprString(call), via)
-		xs, ids := m.ExprString(ast.Unparen(X)), ""
-		if id != nil {
-			ids = m.ExprString(ast.Unparen(id))
-		}
 		guarded := func() bool {
 			if id == nil {
 				return false
 			}
+			// rendered here: under the bindings of a call site the id (a parameter) reads as the caller's actual
+			xs, ids := m.ExprString(ast.Unparen(X)), m.ExprString(ast.Unparen(id))
 			spec := core.GuardSpec{
 				Only: f,
 				GuardAtom: func(ff *core.Func, a core.Atom) bool {
@@ -173,6 +171,13 @@ func c04r9(c *core.Ctx) {
 					continue
 				}
 				n++
+				// with this call's arguments the helper itself may be guarded (`if unique { <membership test> }`)
+				gd := false
+				m.WithCall(f, cs.Call, func() { gd = guarded() })
+				if gd {
+					c.OK("C04/R9", fmt.Sprintf("%s: %s (appends through %s)", cs.Caller.Name, m.RawString(cs.Call), f.Name), c.At(cs.Call.Pos()), "with the arguments of this call the append in the helper is dominated by a negative membership test of the same id in the same container")
+					continue
+				}
 				var idArg ast.Expr
 				if qi >= 0 && qi < len(cs.Call.Args) {
 					idArg = cs.Call.Args[qi]
@@ -260,6 +265,10 @@ func c04r9(c *core.Ctx) {
 		case guarded():
 			c.OK("C04/R9", subject, c.At(call.Pos()), "dominated by a negative membership test of the same id in the same container")
 		default:
+			xs, ids := m.ExprString(ast.Unparen(X)), ""
+			if id != nil {
+				ids = m.ExprString(ast.Unparen(id))
+			}
 			c.Violation("C04/R9", subject, c.At(call.Pos()), fmt.Sprintf("%s appends %s to %s inside a loop%s, the container is not selected by the loop variable (two iterations can select the same one, e.g. two relations with the same target) and no membership test guards the append; the table would be listed twice, freed twice on cleanup and later recycled for two different target tuples", f.Name, ids, xs, via))
 		}
 	}
